@@ -36,3 +36,12 @@ def constant_measurement(value=1.0):
     """A plain function (no results/psi/model/simulation arguments) to be connected as
     ``[module, 'wrap constant_measurement', {'results_key': ..., 'value': ...}]``."""
     return float(value)
+
+
+def m_late(results, psi, model, simulation, results_key='late_value'):
+    """Measurement function whose key only appears from the second measurement on: tenpy then fills the
+    earlier entries with None, so the list cannot become a numpy array and stays a list in the checkpoints."""
+    previous = simulation.results.get('measurements', None)
+    if previous:
+        n = len(next(iter(previous.values())))
+        results[results_key] = float(n) + float(abs(psi.overlap(psi)))
